@@ -26,7 +26,7 @@ Inductive mval : Type :=
 | MI32 (z : Z)     (* 0 <= z < 2^32 *)
 | MF64 (bits : Z).
 
-Inductive lres : Type := LOk (v : mval) | LPoison | LReject | LCrash | LNone.
+Inductive lres : Type := LOk (v : mval) | LRtErr (* call of ddp_runtime_error: Laufzeitfehler *) | LPoison | LReject | LCrash | LNone.
 
 Definition m64 : Z := 2^64.
 Definition signed64 (a : Z) : Z := if a <? 2^63 then a else a - 2^64.
@@ -49,16 +49,9 @@ Definition trunc32_8 (a : Z) : Z := a mod 256.
 Definition sitofp64 (a : Z) : Z := f_of_Z (signed64 a).
 Definition sitofp8 (a : Z) : Z := f_of_Z (signed8 a).
 Definition uitofp8 (a : Z) : Z := f_of_Z a.
-Definition fptosi64 (x : Z) : option Z :=
-  match f_trunc x with
-  | Some z => if (- 2^63 <=? z) && (z <? 2^63) then Some (z mod m64) else None
-  | None => None
-  end.
-Definition fptoui8 (x : Z) : option Z :=
-  match f_trunc x with
-  | Some z => if (0 <=? z) && (z <? 256) then Some z else None
-  | None => None
-  end.
+(* llvm.fptosi.sat.i64.f64 / llvm.fptoui.sat.i8.f64 (70f7a29): saturating, NaN gives 0 *)
+Definition fptosi_sat64 (x : Z) : Z := (f_to_Z_sat (- 2^63) (2^63 - 1) x) mod m64.
+Definition fptoui_sat8 (x : Z) : Z := f_to_Z_sat 0 255 x.
 Definition shl64 (a n : Z) : option Z := if n <? 64 then Some ((a * 2 ^ n) mod m64) else None.
 Definition lshr64 (a n : Z) : option Z := if n <? 64 then Some (a / 2 ^ n) else None.
 Definition shl8 (a n : Z) : option Z := if n <? 8 then Some ((a * 2 ^ n) mod 256) else None.
@@ -94,7 +87,7 @@ Definition of_opt (f : Z -> mval) (o : option Z) : lres := match o with Some z =
 Definition as_int (v : mval) : lres :=
   match v with
   | MI64 a => LOk (MI64 a)
-  | MF64 x => of_opt MI64 (fptosi64 x)
+  | MF64 x => LOk (MI64 (fptosi_sat64 x))
   | MI8 a => LOk (MI64 (zext8_64 a))
   | _ => LNone
   end.
@@ -108,7 +101,7 @@ Definition as_float (v : mval) : lres :=
 Definition as_byte (v : mval) : lres :=
   match v with
   | MI64 a => LOk (MI8 (trunc64_8 a))
-  | MF64 x => of_opt MI8 (fptoui8 x)
+  | MF64 x => LOk (MI8 (fptoui_sat8 x))
   | MI8 a => LOk (MI8 a)
   | _ => LNone
   end.
@@ -165,23 +158,31 @@ Definition lower_bit (f : Z -> Z -> Z) (a b : mval) : lres :=
   | _, _ => LNone
   end.
 
-(* MODULO: 1418-1425 *)
+(* MODULO (78c0539): explicit zero test -> Laufzeitfehler; Byte/Byte urem; otherwise srem with the divisor -1
+   replaced by 1 (select), so the instruction never overflows *)
 Definition lower_mod (a b : mval) : lres :=
+  let srem x y := if y =? 0 then LRtErr
+                  else of_opt MI64 (srem64 x (if y =? m64 - 1 then 1 else y)) in
   match a, b with
-  | MI8 x, MI8 y => of_opt MI8 (urem8 x y)
-  | MI64 x, MI64 y => of_opt MI64 (srem64 x y)
-  | MI64 x, MI8 y => of_opt MI64 (srem64 x (zext8_64 y))
-  | MI8 x, MI64 y => of_opt MI64 (srem64 (zext8_64 x) y)
+  | MI8 x, MI8 y => if y =? 0 then LRtErr else of_opt MI8 (urem8 x y)
+  | MI64 x, MI64 y => srem x y
+  | MI64 x, MI8 y => srem x (zext8_64 y)
+  | MI8 x, MI64 y => srem (zext8_64 x) y
   | _, _ => LNone
   end.
 
-(* LINKS / RECHTS VERSCHOBEN: the shift count is cast to the type of the shifted value (229b26f) *)
+(* LINKS / RECHTS VERSCHOBEN (229b26f, c5f1978): the count is cast to the type of the shifted value;
+   select(icmp ult count, width; shl/lshr x count; 0) *)
+Definition sel_shift64 (left : bool) (x n : Z) : Z :=
+  if n <? 64 then (if left then (x * 2 ^ n) mod m64 else x / 2 ^ n) else 0.
+Definition sel_shift8 (left : bool) (x n : Z) : Z :=
+  if n <? 8 then (if left then (x * 2 ^ n) mod 256 else x / 2 ^ n) else 0.
 Definition lower_shift (left : bool) (a b : mval) : lres :=
   match a, b with
-  | MI64 x, MI64 n => of_opt MI64 (if left then shl64 x n else lshr64 x n)
-  | MI8 x, MI8 n => of_opt MI8 (if left then shl8 x n else lshr8 x n)
-  | MI64 x, MI8 n => of_opt MI64 (if left then shl64 x (zext8_64 n) else lshr64 x (zext8_64 n))
-  | MI8 x, MI64 n => of_opt MI8 (if left then shl8 x (trunc64_8 n) else lshr8 x (trunc64_8 n))
+  | MI64 x, MI64 n => LOk (MI64 (sel_shift64 left x n))
+  | MI8 x, MI8 n => LOk (MI8 (sel_shift8 left x n))
+  | MI64 x, MI8 n => LOk (MI64 (sel_shift64 left x (zext8_64 n)))
+  | MI8 x, MI64 n => LOk (MI8 (sel_shift8 left x (trunc64_8 n)))
   | _, _ => LNone
   end.
 
